@@ -17,6 +17,11 @@ fn key_mods(rich: bool) -> Vec<(Option<u32>, ModSpec)> {
         v.push((Some(i as u32 + 1), ModSpec::Bits(*b)));
     }
     v.push((Some(10), ModSpec::TenKeys));
+    // a key mod next to the other legacy bits of the same region of the bit field (FadeIn 2^20, Random 2^21, Cinema 2^22,
+    // Target 2^23, KeyCoop 2^25, ScoreV2 2^29, Mirror 2^30) and next to ordinary ones: the key mod still decides
+    for (k, other) in [(1u32, 1u32 << 20), (2, 1 << 21), (3, 1 << 22), (9, 1 << 23), (1, 1 << 25), (4, 1 << 20), (8, 1 << 23), (9, 1 << 30), (2, 1 << 29), (7, settings::HR | settings::DT), (3, settings::FL | settings::HD)] {
+        v.push((Some(k), ModSpec::Bits(settings::KEY_BITS[k as usize - 1] | other)));
+    }
     if rich {
         v.push((None, ModSpec::Bits(settings::HR)));
         v.push((None, ModSpec::Random(Some(3.0))));
